@@ -4,6 +4,14 @@ import json, os
 ROOT = os.path.dirname(os.path.dirname(os.path.abspath(__file__)))
 
 CHECKS = {
+ 'C13': dict(level='exploration', design='DESIGN.md §5 C13',
+   technique='z3 regular-language lemmas on the live number clean-up and numeric-literal regexes against a validated grammar of repr(float); CrossHair over solver-indexed float corners, symbolic ints and solver-chosen mantissa/exponent texts',
+   text='z3 decides for every text of the repr(float) grammar (up to 30 characters) that the live clean-up regex fires exactly on intpart.0+ (so integral values lose only the fraction and nothing else is touched) and that every cleaned non-negative text lies in the language of the live numeric-literal regex. CrossHair drives the real stringification, numberParseFloat and the expression parser over a corner pool of floats chosen by a symbolic index and over solver-chosen m e<exp> texts (null instead of non-finite values). The all-doubles round trip float(repr(x)) == x is CPython C code and is an assumption.',
+   note='Partly applicable: dtoa/strtod are C code. Trusted: z3 string theory, rx2z3, the repr grammar (validated on 400 reprs per run).'),
+ 'C14': dict(level='exploration', design='DESIGN.md §5 C14',
+   technique='z3 regular-language lemmas generated from the whole-text regex steps found in the live AST of value_json/jsonStringify/jsonParse against a validated grammar of the JSON encoder output; sat models decoded and replayed through the real functions; CrossHair round trip',
+   text='Every regex step applied to the whole JSON text is discovered from the current source. For a step whose first alternative consumes string tokens, z3 proves (language inclusion + prefix-freeness, all strings up to 40 characters) that every string token is matched whole and returned unchanged, and by four regular-language obligations that number tokens only ever lose an all-zero fraction; for any other step the solver searches JSON texts on which it fires inside a string token or on the parse side, and each model is replayed through the real jsonStringify/jsonParse. CrossHair adds a structural round trip with solver-indexed punctuation strings, numbers and indents.',
+   note='Trusted: the C encoder/decoder (output grammar validated on 150 random values per run), z3 string theory, re.sub left-to-right scanning.'),
  'C10': dict(level='exploration', design='DESIGN.md §5 C10',
    technique='z3 sequence/regex-theory lemmas generated from the live parser regex objects (whitespace closure, comment/continuation invariance, separator and parameter-split languages; sat candidates replayed through parse_script) plus CrossHair-chosen layout rewrites of a marked corpus',
    text='For every line-level statement pattern of the live parser z3 decides, for all ASCII lines up to the length bound and all blank prefixes/suffixes, that classification is closed under re-indentation and trailing blanks; four further language lemmas cover comments, continuation backslashes, the line separator and parameter splitting. Each sat answer is replayed through parse_script (only a changed parse is a violation). CrossHair additionally chooses CRLF/LF, chunking, indentation, trailing blanks, inserted blank/comment lines and the continuation gap on two marked programs that contain every statement kind (solver-driven enumeration, stated as such).',
